@@ -72,6 +72,25 @@ def gen_tissue(rng):
     return dict(kind=kind, place=place, classes=classes, cells=cells, lmin=lmin, cut_adh=cut_adh, cut_rep=cut_rep, ids=ids, level=lvl)
 
 
+def gen_lattice_pair(rng):
+    """two or three facing epithelial cubes with dyadic coordinates: node-to-vertex distances tie bit for bit (the closest-vertex
+    choice, the coupling decision and the closest-point regions all sit on their boundaries)"""
+    nb = rng.choice([2, 2, 3])
+    gap = rng.choice([0.125, 0.25, 0.0625])
+    s_ = 0.5
+    cells = []
+    for i in range(nb):
+        n, f = tissue.cube()
+        # the second cube is optionally shifted by half an edge: its nodes then face edge midpoints (ties between two vertices)
+        sh = rng.choice([0.0, 0.5, 0.25]) if i % 2 else 0.0
+        n = [[(p[0] + 1) * s_ + i * (1.0 + gap), (p[1] + 1) * s_ + sh, (p[2] + 1) * s_ + (sh if rng.random() < 0.5 else 0.0)] for p in n]
+        # which vertex of a triangle comes first decides which branch of a tie is taken: every cyclic rotation
+        f = [tuple(t[(k + r_) % 3] for k in range(3)) for t in f for r_ in [rng.randrange(3)]]
+        cells.append((n, f))
+    cut = rng.choice([0.25, 0.5, 1.0])
+    return dict(kind="lattice", cells=cells, classes=[0] * nb, ids=list(range(nb)), lmin=0.5, cut_adh=cut, cut_rep=cut, place="origin", maxcurv=1e30)
+
+
 def case_line(c):
     cts = types_for(c["classes"], maxcurv=c.get("maxcurv", 2.5e7))
     p = tissue.params(dt=1e-7, damping=5e-10, T=1.0, S=1.0, lmin=c["lmin"], cut_adh=c["cut_adh"], cut_rep=c["cut_rep"], swap=0)
